@@ -146,5 +146,41 @@ def main_dc_shift():
     sys.exit(1 if fails else 0)
 
 
+def main_dcline():
+    """bounded stand-in: AC OPF with a lossy dcline; the reported dcline result is a valid operating point of the dcline model (a power flow with
+    the dispatched p_mw reproduces p_to_mw), for both signs of the set point direction"""
+    fails = []
+    for L, l0, p0 in ((0., 0., 20.), (5., 0., 20.), (0., 1., 20.), (5., 1., 20.), (4., 0.5, -20.)):
+        net = pp.create_empty_network()
+        b = [pp.create_bus(net, 110., min_vm_pu=0.9, max_vm_pu=1.1) for _ in range(4)]
+        pp.create_ext_grid(net, b[0], min_p_mw=-500, max_p_mw=500, min_q_mvar=-500, max_q_mvar=500)
+        pp.create_line_from_parameters(net, b[0], b[1], 30., 0.06, 0.3, 10., 1., max_loading_percent=100)
+        pp.create_line_from_parameters(net, b[2], b[3], 30., 0.06, 0.3, 10., 1., max_loading_percent=100)
+        pp.create_line_from_parameters(net, b[0], b[3], 90., 0.06, 0.3, 10., 1., max_loading_percent=100)
+        pp.create_dcline(net, b[1], b[2], p_mw=p0, loss_percent=L, loss_mw=l0, vm_from_pu=1.01, vm_to_pu=1.02, max_p_mw=80.,
+                         min_q_from_mvar=-30, max_q_from_mvar=30, min_q_to_mvar=-30, max_q_to_mvar=30)
+        pp.create_load(net, b[3], 60., 10.); pp.create_load(net, b[2], 30., 5.); pp.create_load(net, b[1], 10., 2.)
+        pp.create_poly_cost(net, 0, "ext_grid", cp1_eur_per_mw=10.)
+        pp.create_poly_cost(net, 0, "dcline", cp1_eur_per_mw=0.5)
+        try:
+            pp.runopp(net)
+        except Exception as e:
+            print(f"note: OPF with dcline loss_percent={L}, loss_mw={l0}, p_mw={p0}: {type(e).__name__}")
+            continue
+        r = net.res_dcline.iloc[0]
+        pf = copy.deepcopy(net)
+        pf.dcline.at[0, "p_mw"] = r.p_from_mw if p0 >= 0 else -abs(r.p_to_mw)
+        pp.runpp(pf)
+        q = pf.res_dcline.iloc[0]
+        if abs(q.p_from_mw - r.p_from_mw) > 1e-4 or abs(q.p_to_mw - r.p_to_mw) > 1e-4:
+            fails.append(f"dcline loss_percent={L}, loss_mw={l0}, set point {p0}: OPF reports p_from = {r.p_from_mw:.5f}, p_to = {r.p_to_mw:.5f}; a power "
+                         f"flow with that dispatch gives p_from = {q.p_from_mw:.5f}, p_to = {q.p_to_mw:.5f}")
+    for f in fails:
+        print("REPRODUCED:", f)
+    if not fails:
+        print("not reproduced: dcline results of the OPF are operating points of the dcline model")
+    sys.exit(1 if fails else 0)
+
+
 if __name__ == "__main__":
     main()
